@@ -72,7 +72,16 @@ func sentinelDst(dst []byte, extra int, spare int) []byte {
 
 // window returns a copy of s that is a window of a larger buffer: valid bases follow it in the
 // backing array (cap > len), as when a caller slices a read out of a larger sequence.
-func window(s []byte) []byte {
+//
+// With exact set, the copy has no spare capacity at all (nil for an empty s): both shapes occur
+// in real programs and slicing bugs show with one or the other.
+func window(s []byte, exact ...bool) []byte {
+	if len(exact) > 0 && exact[0] {
+		if len(s) == 0 {
+			return nil
+		}
+		return bytes.Clone(s)[:len(s):len(s)]
+	}
 	buf := make([]byte, 0, len(s)+12)
 	buf = append(buf, s...)
 	buf = append(buf, "ACGTACGTACGT"...)
@@ -80,7 +89,7 @@ func window(s []byte) []byte {
 }
 
 func checkC13(c C13Case, o *Obs) error {
-	data := window(c.Data)
+	data := window(c.Data, (len(c.Data)+len(c.Dst)+c.Spare)%2 == 0)
 	dataCopy := bytes.Clone(data)
 	o.Class("kind:" + c.Kind)
 	o.ClassIf(len(c.Dst) > 0, "non-empty dst")
